@@ -84,7 +84,7 @@ NOT_APPLICABLE = [
 _C04_FUNCS = ["query::comparison::eq", "query::comparison::lt", "query::comparison::eq_json"]
 _C04 = """nothing_nothing nothing_null nothing_bool nothing_int nothing_float nothing_str nothing_arr nothing_obj
 null_null null_bool null_int null_float null_str null_arr null_obj bool_bool bool_int bool_float bool_str bool_arr bool_obj
-int_int iint_float float_float int_str int_arr int_obj float_str float_arr float_obj str1_str1 ascii2_ascii2 str1_ascii2 str_arr str_obj
+int_int iint_float int_hugefloat float_float int_str int_arr int_obj float_str float_arr float_obj str1_str1 ascii2_ascii2 str1_ascii2 str_arr str_obj
 arr_arr arr2_arr2 arr_arr2 arr_obj obj_obj obj_obj_ba obj_obj1""".split()
 PROPS["C04"] = [
     H("comparison", "c04_" + n, funcs=_C04_FUNCS,
@@ -100,12 +100,14 @@ PROPS["C04"] = [
 ] + [
     H("comparison", "c04_str_str", tiers="t", funcs=_C04_FUNCS, symbolic="two strings of <= 2 arbitrary Unicode scalars each",
       shape="string x string", est=500, timeout=3300),
+    H("comparison", "c04_sq_index_eq", funcs=["query::comparison::Comparison::process", "query::comparable::SingularQuery::process", "query::comparable::SingularQuerySegment::process", "query::selector::process_index"] + _C04_FUNCS,
+      symbolic="index i and constant c in I-JSON, two elements any i64", shape="@[i] == c, @[i] != c on the current node [x0, x1] (empty result when i is out of range)", est=30),
     H("comparison", "c04_roled_arr_if_fi", funcs=_C04_FUNCS, role="D",
       symbolic="array elements: I-JSON int and finite float", shape="[int,float] vs [float,int]", est=8),
 ]
 PROP_INFO["C04"] = {
-    "bounds": "one harness per unordered pair of operand kinds {nothing,null,bool,int,float,string,array,object}; strings <= 2 scalars, arrays <= 2 elements, objects <= 2 members; mixed int/float comparisons with the int in the I-JSON range",
-    "outside": ["strings longer than 2 scalars", "containers nested deeper than 1", "u64 integers above i64::MAX", "integers outside I-JSON compared with floats", "operator token parsing (grammar)"],
+    "bounds": "one harness per unordered pair of operand kinds {nothing,null,bool,int,float,string,array,object}; strings <= 2 scalars, arrays <= 2 elements, objects <= 2 members; mixed int/float comparisons with the int in the I-JSON range, or any i64 against a float beyond the i64 range (|f| >= 1e19)",
+    "outside": ["strings longer than 2 scalars", "containers nested deeper than 1", "u64 integers above i64::MAX", "integers outside I-JSON compared with floats inside the i64 range (|f| < 1e19): the engine rounds the integer to f64 there", "operator token parsing (grammar)"],
 }
 
 # ----------------------------------------------------------------------------- C10
@@ -120,7 +122,7 @@ PROPS["C10"] = [
                       ("nothing", "-", 5))
 ] + [
     H("test_function", "c10_count_" + k, funcs=["query::test_function::count"], symbolic="node payloads",
-      shape="nodelist " + k, est=8) for k in ("refs0", "refs1", "refs3", "ref", "nothing")
+      shape="nodelist " + k, est=8) for k in ("refs0", "refs1", "refs3", "ref", "nothing", "dup")
 ] + [
     H("test_function", "c10_value_" + k, funcs=["query::test_function::value"], symbolic="node payloads",
       shape="nodelist " + k, est=8) for k in ("refs0", "refs1", "refs2", "refs3", "ref")
@@ -134,7 +136,7 @@ PROPS["C10"] += [
       symbolic="string literal of one ASCII and one 2-byte scalar (any content), constant c", shape="length(<literal>) == c", est=15),
 ]
 PROP_INFO["C10"] = {
-    "bounds": "length: strings of 0..3 scalars at the listed UTF-8 width patterns (any content), arrays/objects <= 3 entries, every scalar kind, empty nodelist; count/value: nodelists of 0..3 nodes, single node, nothing",
+    "bounds": "length: strings of 0..3 scalars at the listed UTF-8 width patterns (any content), arrays/objects <= 3 entries, every scalar kind, empty nodelist; count/value: nodelists of 0..3 nodes, single node, nothing; count of a nodelist holding one node twice",
     "outside": ["match() and search(): the regex crate cannot be compiled by Kani (ICE in regex_automata) - not claimed",
                 "function-call parsing and typing (grammar / C07)", "strings longer than 2 scalars", "nodelists longer than 3"],
 }
@@ -174,6 +176,10 @@ PROPS["C05"] = [
       symbolic="children payloads, negation flag", shape="child array of %s elements, test ?@.* / ?!@.*" % k[1:], est=20)
     for k in ("n0", "n2")
 ] + [
+    H("filter", "c05_exist_idx_" + k, funcs=["query::atom::FilterAtom::process", "query::test::Test::process", "query::selector::process_index"],
+      symbolic="index i in [-(2^53-1), 2^53-1], negation flag", shape="child array [null,false,0] truncated to %s elements, test ?@[i] / ?!@[i]" % k[1:], est=15)
+    for k in ("n0", "n1", "n3")
+] + [
     H("filter", "c05_select_arr_" + k, funcs=_C05F, symbolic="3 elements (any i64), constant c in I-JSON", shape="array of 3, predicate @ %s c" % k, est=200, timeout=900)
     for k in ("gt", "eq")
 ] + [
@@ -185,8 +191,17 @@ PROPS["C05"] = [
       shape="root [r0,r1], current node null, test ?$[?@ == c]", est=200, timeout=900),
     H("filter", "c05_select_scalar", funcs=_C05F, symbolic="scalar value", shape="filter on a scalar", est=20),
 ]
+_SCOPE = [
+    H("comparison", "c05_cmp_root_index", funcs=["query::comparison::Comparison::process", "query::comparable::SingularQuery::process (Root: State::shift_to_root)", "query::selector::process_index"] + _C04_FUNCS,
+      symbolic="root elements r0, r1, current node x (any i64), index i in I-JSON", shape="$[i] == @ and $[i] < @ with root [r0, r1] and an unrelated current node", est=30),
+] + [
+    H("comparison", "c05_cmp_" + k, funcs=["query::comparison::Comparison::process", "query::comparable::SingularQuery::process (Root: State::shift_to_root)", "query::selector::process_key"] + _C04_FUNCS,
+      symbolic="root member values, current node x (any i64)", shape=shape + " with root {j, k} and an unrelated current node", est=15)
+    for k, shape in (("root_name", "$.k == @"), ("cur_root_name", "@ == $.k"))
+]
+PROPS["C05"] += _SCOPE + [h for h in PROPS["C04"] if h["name"] == "c04_sq_index_eq"]
 PROP_INFO["C05"] = {
-    "bounds": "formula shapes listed per harness (<= 4 atoms, 2 levels), all valuations; existence tests on members with every value kind; child selection on arrays of 3 / objects of 2; @/$ scoping one level",
+    "bounds": "formula shapes listed per harness (<= 4 atoms, 2 levels), all valuations; existence tests on members with every value kind and over an index (every I-JSON i, child arrays of 0/1/3); child selection on arrays of 3 / objects of 2; @/$ scoping: $-rooted absolute test queries, and $-rooted singular queries ($[i], $.k) as comparison operands against an unrelated current node",
     "outside": ["operator precedence and parenthesis parsing (pest grammar and AST construction from Pair<Rule>)", "formulas with more than 4 atoms or deeper nesting"],
 }
 
@@ -216,6 +231,10 @@ _C02 = [
     H("segment", "c02_selectors_idx_slice", funcs=["query::segment::process_selectors"], symbolic="slice bounds 0..3, j in -4..4", shape="[j, s:e] on one array of 3", est=120),
     H("segment", "c02_selectors_wild_idx", funcs=["query::segment::process_selectors"], symbolic="j in -3..3", shape="[*, j] on one array of 2", est=60),
     H("segment", "c02_selectors_three", funcs=["query::segment::process_selectors"], symbolic="i, j, k in -3..2", shape="[i, j, k] on one array of 2", est=90),
+    H("segment", "c02_selectors_0_1_wild", funcs=["query::segment::process_selectors", "query::state::Data::reduce"], symbolic="element payloads", shape="[0, 1, *] on one array of 3 (concrete lengths throughout; K = 8)", est=60, timeout=600),
+    H("segment", "c02_selectors_m1_0_wild", funcs=["query::segment::process_selectors", "query::state::Data::reduce"], symbolic="element payloads", shape="[-1, 0, *] on one array of 3 (concrete lengths throughout; K = 8)", est=60, timeout=600),
+    H("segment", "c02_selectors_idx_idx_wild", funcs=["query::segment::process_selectors", "query::state::Data::reduce"], symbolic="i, j in -4..3",
+      shape="[i, j, *] on one array of 3 (a later selector yielding more nodes than all earlier ones; K = 8 allocation regime)", est=150, timeout=900),
 ]
 _SLICES = [h for h in PROPS["C11"] if "slice" in h["name"]]
 PROPS["C01"] = _C01 + [h for h in _C02 if "roleb" not in h["name"]] + [h for h in PROPS["C11"] if h["name"].endswith(("index_len3", "slice_len2"))]
@@ -232,8 +251,8 @@ PROP_INFO["C01"] = {
                 "filter selectors (see C05)", "names longer than 2 bytes / escape decoding in names", "arrays longer than 4, nodelists longer than 4"],
 }
 PROP_INFO["C02"] = {
-    "bounds": "order of: wildcard children (array index order, object member order), slices incl. negative steps (lengths 2,3), concatenation of nodelists (all operand shapes of 0..2 nodes), multi-selector segments [i,j], [s:e,j], [j,s:e] on one node with duplicates",
-    "outside": ["descendant pre-order over trees (thorough-only, see DESIGN)", "segments with more than two selectors", "more than two input nodes"],
+    "bounds": "order of: wildcard children (array index order, object member order), slices incl. negative steps (lengths 2,3), concatenation of nodelists (all operand shapes of 0..2 nodes), multi-selector segments [i,j], [s:e,j], [j,s:e], [*,j], [i,j,k], [i,j,*] on one node with duplicates",
+    "outside": ["descendant pre-order over trees (thorough-only, see DESIGN)", "segments with more than three selectors", "more than two input nodes"],
 }
 PROP_INFO["C13"] = {
     "bounds": "AST-level: the three name spellings a, 'a', \"a\" (as the parser hands them to the evaluator) select the same member of a 2-member object",
@@ -245,6 +264,7 @@ _C03F = ["query::state::Pointer::idx", "query::state::Pointer::key", "core::fmt 
 PROPS["C03"] = [
     H("selector", "c03_idx_path", funcs=_C03F, symbolic="index 0..9999", shape="Pointer::idx on path $", est=15),
     H("selector", "c03_key_path_plain", funcs=_C03F, symbolic="one printable ASCII byte other than ' and \\", shape="Pointer::key on path $", est=15),
+    H("selector", "c03_key_path_plain2", funcs=_C03F, symbolic="two printable ASCII bytes other than ' and \\ (so also the member name made of two double quotes)", shape="Pointer::key on path $", est=30),
     H("selector", "c03_roleb_key_path_escaped", funcs=_C03F, role="B", symbolic="one byte in {' \\ LF TAB}", shape="Pointer::key on path $", est=15),
     H("selector", "c03_index_route_len3", funcs=_C03F + ["query::selector::process_index"], symbolic="i in -4..3", shape="array of 3", est=25),
     H("selector", "c03_slice_route_fixed", tiers="t", timeout=3000, exclusive=True, funcs=_C03F + ["query::selector::process_slice"], symbolic="element payloads only (slice parameters concrete: [::-2], [1::-1])", shape="array of 3", est=60),
@@ -255,8 +275,8 @@ PROPS["C03"] = [
     H("selector", "c03_rolec_key_route_dquote", funcs=_C03F + ["query::selector::process_key"], role="C", symbolic="member value", shape="name \"a\" on {a}", est=15),
 ]
 PROP_INFO["C03"] = {
-    "bounds": "index steps 0..9999; one-byte ASCII member names; routes: index (incl. negative) and slice (incl. negative steps) on arrays of 3, wildcard on a 2-member object and a 2-element array, name selector in shorthand / single / double quoted spelling; real core::fmt",
-    "outside": ["running a reported path as a query (needs the pest parser on a symbolic string: out of reach)", "multi-byte member names, names longer than one byte", "paths through descendant and filter routes (multi-stage, see C02)", "indices above 9999"],
+    "bounds": "index steps 0..9999; one- and two-byte ASCII member names (no ' or \\); routes: index (incl. negative) and slice (incl. negative steps) on arrays of 3, wildcard on a 2-member object and a 2-element array, name selector in shorthand / single / double quoted spelling; real core::fmt",
+    "outside": ["running a reported path as a query (needs the pest parser on a symbolic string: out of reach)", "multi-byte member names, names longer than two bytes", "paths through descendant and filter routes (multi-stage, see C02)", "indices above 9999"],
 }
 
 # ----------------------------------------------------------------------------- C06 / C07 (validators behind the grammar only)
@@ -298,7 +318,11 @@ _C08P = [
     H("query", "c08_process_slice_arr", funcs=_PROC + ["query::selector::process_slice"], symbolic="start,end,step each absent or in I-JSON, element payloads",
       shape="$[s:e:st] on an array of 3: always Ok, elements of the array, each at most once, monotone order", est=200, timeout=900),
 ]
-PROPS["C08"] = _C08P + PROPS["C11"] + [h for h in PROPS["C01"] if "wrong_container" in h["name"] or "selectors_on" in h["name"]] + [PROPS["C06"][0]]
+_C08K = [
+    H("selector", "c08_key_path_" + k, funcs=["query::state::Pointer::key"], symbolic=sym, shape="Pointer::key on path $ (no panic for any short member name)", est=8)
+    for k, sym in (("any1", "one ASCII byte, any (quote, backslash, control characters included)"), ("any2", "two ASCII bytes, any"), ("empty", "- (the empty member name)"))
+]
+PROPS["C08"] = _C08P + _C08K + PROPS["C11"] + [h for h in PROPS["C01"] if "wrong_container" in h["name"] or "selectors_on" in h["name"]] + [PROPS["C06"][0]]
 PROP_INFO["C08"] = {
     "bounds": "no-panic (Kani's overflow / bounds / unwrap / cast checks, all on) and always-Ok for: one-segment queries of each selector kind through js_path_process on arrays of 3, objects of 2, scalars, empty containers; index and slice arithmetic for every I-JSON integer (C11 harnesses); the parser's integer range check",
     "outside": ["the parser (pest) - panics in parse-tree handling are not covered", "stack exhaustion on deep documents / queries and wall-clock bounds (not expressible in CBMC)", "multi-segment pipelines, descendant recursion and filters after multi-node segments (measured out of reach)", "regex compilation"],
@@ -320,9 +344,14 @@ PROPS["C15"] = [
       symbolic=sym, shape="eq / lt in both orders at T = serde_json::Value and at T = Mini on equal scalar content", est=15)
     for k, sym in (("int_int", "two i64"), ("float_float", "two finite f64"), ("int_float", "I-JSON int, finite f64"), ("bool_null", "bool"),
                    ("bool_bool", "two bools"), ("str_str", "1-byte and 2-byte UTF-8 scalars"), ("str_int", "1-byte scalar, i64"))
+] + [
+    H("comparison", "c15_null_literal_" + k, funcs=["query::comparison::Comparison::process", "query::comparable::Literal::process", "Queryable::null (Mini; Mini::default() is deliberately not null)"] + _C04_FUNCS,
+      symbolic=sym, shape="null == @, null != @, null < @ with the node " + k, est=10)
+    for k, sym in (("null", "-"), ("bool", "any bool (includes Mini::default())"), ("int", "any i64"))
 ]
+PROPS["C15"] += _SCOPE
 PROP_INFO["C15"] = {
-    "bounds": "PARTIAL: relational check of the comparison kernels (==, <, >) instantiated at serde_json::Value and at the harness type Mini on equal scalar content of every scalar kind; all other harnesses of this framework run the generic engine at T = Mini, i.e. already at a second Queryable implementation",
+    "bounds": "PARTIAL: relational check of the comparison kernels (==, <, >) instantiated at serde_json::Value and at the harness type Mini on equal scalar content of every scalar kind; the literal null compared with null/bool/int nodes at T = Mini whose Default is deliberately not its null; all other harnesses of this framework run the generic engine at T = Mini, i.e. already at a second Queryable implementation",
     "outside": ["whole-query relational runs over Value documents: serde_json's recursive drop glue / BTreeMap objects do not go through CBMC (measured: OOM / no verdict)", "<Value as Queryable>::get quote stripping on objects"],
     "level_text": "PARTIAL claim: bounded model checking of the generic comparison code at two Queryable instantiations with a relational assertion; object access and whole queries over serde_json::Value are outside reach.",
 }
